@@ -224,6 +224,108 @@ def _run_info():
     return _RUN_INFO
 
 
+def _uses_safelink(thread, link):
+    """Whether the driver is in safelink mode.  The flag lives in a private attribute of the thread in the
+    current code; if a refactoring moves it, fall back to the public consequence (needs_resending False)."""
+    if hasattr(thread, '_has_safelink'):
+        return bool(thread._has_safelink)
+    for obj in (link, thread):
+        for nm in ('has_safelink', '_has_safelink', 'safelink'):
+            if hasattr(obj, nm):
+                return bool(getattr(obj, nm))
+    return not link.needs_resending
+
+
+# ---------------------------------------------------------------------------------------------
+# pause / restart histories on one RadioDriver (safelink must be re-negotiated by every radio thread)
+# ---------------------------------------------------------------------------------------------
+class _Ack:
+    def __init__(self, ack, data=()):
+        self.ack = ack
+        self.data = tuple(data)
+        self.retry = 0
+        self.powerDet = False
+
+
+class _ScriptRadio:
+    """Start-up: echoes the safelink request at probe number `echo_at` (None: never; other probes are lost).
+    Main loop: every transmission is delivered and acknowledged with a null packet carrying the right bits."""
+
+    def __init__(self, echo_at, n_main):
+        self.echo_at = echo_at
+        self.n_main = n_main
+        self.probes = 0
+        self.frames = []
+        self.peer_sl = False
+        self.down = 1
+
+    def send_packet(self, data):
+        data = tuple(data)
+        if data == (0xff, 0x05, 0x01):
+            self.probes += 1
+            if self.echo_at is not None and self.probes == self.echo_at:
+                self.peer_sl = True
+                self.down = 1
+                return _Ack(True, (0xff, 0x05, 0x01))
+            return _Ack(False)
+        self.frames.append(data)
+        if len(self.frames) > self.n_main:
+            raise _Stop()
+        if self.peer_sl:
+            b2 = (data[0] >> 2) & 1
+            if b2 != self.down:
+                self.down = b2
+            return _Ack(True, (0xf3 | (self.down << 2), 0x01, 0x20))
+        return _Ack(True, (0xf7, 0x01, 0x20))
+
+
+def part_restart(_):
+    import queue as _q
+    from cflib.crtp import radiodriver as rd
+    p = Partial()
+    clock = _VClock()
+    rd.time = clock
+    kinds = (1, 3, 10, None)
+    for first in kinds:
+        for second in kinds:
+            for third in kinds:
+                link = rd.RadioDriver()
+                link.in_queue = _q.Queue()
+                link.out_queue = _q.Queue(1)
+                errs = []
+                obs = []
+                for run_no, echo_at in enumerate((first, second, third)):
+                    radio = _ScriptRadio(echo_at, 4)
+                    t = rd._RadioDriverThread(radio, link.in_queue, link.out_queue, None, errs.append, link, None)
+                    try:
+                        t.run()
+                    except _Stop:
+                        pass
+                    hdrs = [f[0] for f in radio.frames]
+                    toggles = len(set((h >> 3) & 1 for h in hdrs)) > 1 or any((h & 0x0c) != 0x0c for h in hdrs)
+                    obs.append((echo_at is not None, not link.needs_resending, toggles))
+                    while not link.in_queue.empty():
+                        link.in_queue.get()
+                p.case(key=('restart', first, second, third), outcome=tuple(obs),
+                       sample={'part': 'pause/restart', 'echo_at_per_thread': [first, second, third],
+                               'per_thread (confirmed, reliable, header bits used)': obs} if (first, second, third) in ((1, None, 1), (None, 3, None)) else None)
+                p.states += 3
+                p.transitions += 12
+                for run_no, (conf, reliable, toggles) in enumerate(obs):
+                    if reliable != conf or toggles != conf:
+                        hist = 'confirmed' if obs[run_no - 1][0] else 'unconfirmed'
+                        p.violation('restart:safelink_%s_although_%s:previous_thread_%s' % (
+                            'used' if (reliable or toggles) else 'not_used', 'confirmed' if conf else 'not_confirmed',
+                            hist if run_no else 'none'),
+                            'radio thread %d on one RadioDriver (echo at probes %r): peer %s safelink in this start-up but '
+                            'needs_resending=%r and sequence bits %s' % (run_no + 1, (first, second, third),
+                                                                         'confirmed' if conf else 'did not confirm', not reliable,
+                                                                         'toggle' if toggles else 'stay 1/1'),
+                            {'part': 'restart', 'echo': [first, second, third]})
+                        break
+    return p
+
+
 class _World:
     """Environment (radio channel + peer firmware + application) and the property monitor."""
 
@@ -345,10 +447,10 @@ class _World:
         if main:
             self.main = True
             t = self.thread
-            if bool(t._has_safelink) != self.echoed:
-                self.bad('safelink:enabled_without_echo' if t._has_safelink else 'safelink:not_enabled_after_echo',
-                         '_has_safelink=%r but %s start-up probe returned the exact echo ff 05 01'
-                         % (t._has_safelink, 'a' if self.echoed else 'no'))
+            if bool(_uses_safelink(t, self.link)) != self.echoed:
+                self.bad('safelink:enabled_without_echo' if _uses_safelink(t, self.link) else 'safelink:not_enabled_after_echo',
+                         'driver uses safelink=%r but %s start-up probe returned the exact echo ff 05 01'
+                         % (_uses_safelink(t, self.link), 'a' if self.echoed else 'no'))
             if bool(self.link.needs_resending) != (not self.echoed):
                 self.bad('safelink:needs_resending', 'link.needs_resending=%r with safelink %s'
                          % (self.link.needs_resending, 'confirmed' if self.echoed else 'not confirmed'))
@@ -384,8 +486,8 @@ class _World:
         t = self.thread
         b3, b2 = (frame[0] >> 3) & 1, (frame[0] >> 2) & 1
         # header-bit clause
-        if t._has_safelink:
-            if (b3, b2) != (t._curr_up, t._curr_down):
+        if _uses_safelink(t, self.link):
+            if hasattr(t, '_curr_up') and hasattr(t, '_curr_down') and (b3, b2) != (t._curr_up, t._curr_down):
                 self.bad('hdr:bits_mismatch', 'frame %s carries (bit3,bit2)=%r, thread sequence bits are (%r,%r)'
                          % (bytes(frame).hex(), (b3, b2), t._curr_up, t._curr_down))
             if (frame[0] & 0xf3,) + frame[1:] != (self.expect[0] & 0xf3,) + self.expect[1:]:
@@ -930,6 +1032,7 @@ def run(ck):
             info['stateless_extra_choices_after_startup'] = extra
             _SEEN = None
     ck.pmap(part_handoff, [5 if ck.quick else 6])
+    ck.pmap(part_restart, [None])
     ck.note('bfs', infos)
     ck.note('fixpoint_reached_all_configs', all_fix)
     ck.note('run_locals_dropped_after_startup', sorted(_run_info()[1]))
@@ -950,7 +1053,8 @@ def replay(ck, data):
     print('end: mode=%s submitted=%d accepted_by_peer=%d downlink_sent=%d downlink_received=%d link_errors=%r'
           % (_mode(w), w.sub, w.acc, w.dl_sent, w.rx, w.errs))
     print('thread: _has_safelink=%r _curr_up=%r _curr_down=%r _retry_before_disconnect=%r needs_resending=%r'
-          % (w.thread._has_safelink, w.thread._curr_up, w.thread._curr_down, w.thread._retry_before_disconnect,
+          % (_uses_safelink(w.thread, w.link), getattr(w.thread, '_curr_up', '?'), getattr(w.thread, '_curr_down', '?'),
+             getattr(w.thread, '_retry_before_disconnect', '?'),
              w.link.needs_resending))
     for pos, sig, what in w.viol:
         ck.violation('%s:%s' % (sig, _mode(w)), what)
